@@ -155,6 +155,16 @@ CHECKS = {
         'text, not about full agreement with the tools; parse_hgignore / parse_dockerignore line handling (comments, blank lines, `syntax:` sections, `!`) and the upstream search '
         'for the ignore file. Pattern side enumerated, path side symbolic and unbounded.',
    technique='regex text of the real translators -> z3 RegLan equivalence (unbounded paths); MIR symbolic execution + z3 for fold and precedence'),
+ 'C13': dict(
+   level='model_checking', design_ref='DESIGN.md §5 C13',
+   text='Real MIR, z3: (table) the DateTime arm of Searcher::conforms for all 64-bit instants t and intervals a <= b: = / != / < / > / <= / >= as the statement defines them; '
+        '(literal) util::datetime::parse_datetime from bb0 with DATE_REGEX.captures modelled — which optional groups are present and all six numeric fields symbolic, chrono by '
+        'contract: every Ok result is [start, finish] = (h|0, m|0, s|0) .. (h|23, m|59, s|59) of the day named, start <= finish, and no field value makes it panic; (relative) '
+        'today / yesterday / +N / -N under a symbolic clock denote the whole local day; (lexer_date) lexer::looks_like_date is true exactly for years 1970..2999 with month 01..12.',
+   note=TRUST + 'Assumed: the regex crate captures what the two date regexes say (captures modelled: groups present left to right, numbers of their digit width); chrono: '
+        'with_hour/minute/second -> None outside their range, Local.with_ymd_and_hms -> Single(midnight of that day) or None (calendar validity uninterpreted), local-time '
+        'conversion and formatting of the `modified` column, chrono-english free-form dates and DST gaps are outside the claim.',
+   technique=TECH),
 }
 REASON_TODO = 'check not built yet in this session (planned: see DESIGN.md §5); not claimed until it exists'
 NA = {}
